@@ -1025,6 +1025,14 @@ func main() {
 		}
 		runPhase("compacted", []int{0, 8})
 	}
+	// column-store stage (condition trees over a column-store measurement), on the first server
+	if os.Getenv("C08_NOCS") == "" && len(os.Args) > 3 && nds > 0 {
+		n := 60
+		if os.Getenv("VERIF_TIER") == "thorough" {
+			n = 400
+		}
+		runColumnStore(gen.FromEnv(8008), n)
+	}
 	// second server profile: the same node with three partitions (ptnum-pernode = 3): every database is spread over
 	// three partitions, queries fan out over them; reduced configuration matrix
 	if os.Getenv("C08_NOPT") == "" {
@@ -1093,3 +1101,5 @@ func main() {
 	}
 	logf("done in %v", time.Since(t0))
 }
+
+func sleepMs(ms int) { time.Sleep(time.Duration(ms) * time.Millisecond) }
